@@ -165,7 +165,7 @@ pub fn def(ctx: &Ctx) -> PropertyDef {
             program_scenario(p, oracle(), move |_c| IlvCfg {
                 bounds: if quick { vec![0, 1] } else { vec![0, 1, 2] },
                 workers,
-                split_depth: 5,
+                split_depth: 6,
                 time_cap_s: Some(if quick { 12.0 } else { 300.0 }),
                 max_executions: None,
             })
